@@ -60,21 +60,24 @@ def run(ctx):
            fsm.state_loc[idle], 'a packet starts on first&valid, or on last&valid without first (ZLP), and on nothing else: %s %s %s %s' % (
                sorted(map(str, o1)), sorted(map(str, o2)), sorted(map(str, o3)), sorted(map(str, o4))))
     from ..fsm import holds
-    zl = {a.rhs.val: a for a in ir.drivers(ZLP, exact=True) if a.rhs.op == 'const' and q.state_of(a) == idle}
-    ok = set(zl) == {0, 1}
-    if ok:
-        for f_ in (False, True):
-            for l_ in (False, True):
-                for v_ in (False, True):
-                    asg = {F_: f_, L_: l_, V_: v_}
-                    val = None
-                    for a in sorted(zl.values(), key=lambda a: a.order):
-                        if holds(a.guard, asg):
-                            val = a.rhs.val
-                    if f_ and v_:
-                        ok = ok and val == 0
-                    elif l_ and v_:
-                        ok = ok and val == 1
+    # the value written to the flag in idle, for every valuation of first / last / valid (last assignment wins; the
+    # right-hand side may be a constant or an expression over the three stream bits)
+    from ..fsm import eval_bool
+    zs = sorted([a for a in ir.drivers(ZLP, exact=True) if q.state_of(a) == idle], key=lambda a: a.order)
+    zl = {i: a for i, a in enumerate(zs)}
+    ok = bool(zs)
+    for f_ in (False, True):
+        for l_ in (False, True):
+            for v_ in (False, True):
+                asg = {F_: f_, L_: l_, V_: v_}
+                val = None
+                for a in zs:
+                    if holds(a.guard, asg):
+                        val = a.rhs.val if a.rhs.op == 'const' else eval_bool(a.rhs, asg)
+                if f_ and v_:
+                    ok = ok and val is not None and not val
+                elif l_ and v_:
+                    ok = ok and bool(val)
     ctx.ob('C03.start', 'USBDataPacketGenerator.is_zlp', ok, None, 'is_zlp is 1 exactly for last-without-first requests and 0 for first&valid: %s' % {k: sorted(q.atoms(v)) for k, v in zl.items()})
     # (b) PID table
     def drv(sig, state):
